@@ -183,9 +183,12 @@ func genPaths(c *Ctx, rules []rrule, n int) []string {
 		switch c.Rng.Intn(12) {
 		case 0: // one segment more
 			segs = append(segs, segPool[c.Rng.Intn(len(segPool))])
-		case 1: // one segment less
+		case 1: // one segment less, or cut at any earlier segment boundary (the path ends inside a sub-pattern)
 			if len(segs) > 0 {
 				segs = segs[:len(segs)-1]
+				if len(segs) > 1 && c.Rng.Intn(2) == 0 {
+					segs = segs[:1+c.Rng.Intn(len(segs)-1)]
+				}
 			}
 		case 2: // wrong / extra / missing verb
 			verb = []string{"", verbPool[c.Rng.Intn(len(verbPool))], verb + "x"}[c.Rng.Intn(3)]
@@ -347,6 +350,17 @@ func runRouting(c *Ctx, prop string) {
 		{{method: 1, primary: rbind{kind: "GET", t: ttmpl{segs: []tseg{v("name", lit("a.b"), tseg{kind: sStar})}}}},
 			{method: 0, primary: rbind{kind: "GET", t: ttmpl{segs: []tseg{v("name", lit("a"), tseg{kind: sStar})}}}},
 			{method: 2, primary: rbind{kind: "GET", t: ttmpl{segs: []tseg{v("name", lit("a-b"), tseg{kind: sStar}, lit("x"))}}}}},
+		// a path that ENDS inside a variable's sub-pattern (after a star with more pattern to come) beside
+		// rules that really match it: a sibling variable that sorts later, a catch-all reached by backtracking
+		{{method: 0, primary: rbind{kind: "GET", t: ttmpl{segs: []tseg{lit("v1"), v("name", lit("shelves"), tseg{kind: sStar}, lit("books"), tseg{kind: sStar})}}}},
+			{method: 1, primary: rbind{kind: "GET", t: ttmpl{segs: []tseg{lit("v1"), v("name", lit("shelves"), lit("zz"))}}}},
+			{method: 2, primary: rbind{kind: "GET", t: ttmpl{segs: []tseg{v("name", tseg{kind: sStarStar})}}}}},
+		{{method: 0, primary: rbind{kind: "GET", t: ttmpl{segs: []tseg{v("name", lit("a"), tseg{kind: sStar}, lit("b"), tseg{kind: sStar}, lit("c"))}}}},
+			{method: 1, primary: rbind{kind: "GET", t: ttmpl{segs: []tseg{v("name", lit("a"), tseg{kind: sStar}, lit("b"))}}}}},
+	}
+	directedPaths := map[int][]string{
+		3: {"/v1/shelves/zz", "/v1/shelves/s1", "/v1/shelves/s1/books", "/v1/shelves", "/v1/shelves/s1/books/b1"},
+		4: {"/a/x/b", "/a/x", "/a/x/b/y", "/a/x/b/y/c", "/a"},
 	}
 	for si := 0; si < nSets+len(directedSets); si++ {
 		var rules []rrule
@@ -408,7 +422,11 @@ func runRouting(c *Ctx, prop string) {
 		}
 
 		verbs := []string{"GET", "POST", "PUT", "DELETE", "PATCH", "LOCK", "WEBSOCKET"}
-		for _, path := range genPaths(c, rules, c.N(8, 12)) {
+		paths := genPaths(c, rules, c.N(8, 12))
+		if si < len(directedSets) {
+			paths = append(paths, directedPaths[si]...)
+		}
+		for _, path := range paths {
 			verb := verbs[c.Rng.Intn(len(verbs))]
 			if len(acc) > 0 && c.Rng.Intn(3) > 0 {
 				verb = strings.ToUpper(acc[c.Rng.Intn(len(acc))].b.kind)
